@@ -1,5 +1,5 @@
 (* C09 — the hypotheses of the single-run theorems are satisfiable by non-trivial states. *)
-From Sdns Require Import Common.Base Gen.C09 C09.Model C09.Proofs_Maps C09.Proofs_Rev C09.Proofs_Step C09.Proofs_Refute C09.Proofs_Prov C09.Proofs_Thm.
+From Sdns Require Import Common.Base Gen.C09 C09.Model C09.Proofs_Maps C09.Proofs_Rev C09.Proofs_Step C09.Proofs_Refute C09.Proofs_Prov C09.Proofs_Thm C09.Proofs_Hist.
 Open Scope N_scope.
 
 Definition sA := s0 tag_inj.   (* A and B configured and Valid on disk *)
@@ -41,7 +41,35 @@ Example ex_missing :
   ~ In kB (s_live (step tag_inj s1 (ERun (92 * day) (FResp [kA] [sg tag_inj kA]) no_faults))).
 Proof. vm_compute. repeat split; auto. intros [H|[]]; discriminate. Qed.
 
-(* corrupt_tombstones_fails_closed *)
+(* unreadable_store_fails_closed *)
 Example ex_corrupt :
-  r_live (autota tag_inj (s_live sA) (s_cfg sA) (s_disk sA) 5%Z (rev_fetch tag_inj) (mk_faults false TRCorrupt false false)) = [].
-Proof. reflexivity. Qed.
+  r_live (autota tag_inj (s_live sA) (s_cfg sA) (s_disk sA) 5%Z (rev_fetch tag_inj) (mk_faults false TRCorrupt false false)) = [] /\
+  r_live (autota tag_inj (s_live sA) (s_cfg sA) (s_disk sA) 5%Z (rev_fetch tag_inj) (mk_faults true TROk false false)) = [].
+Proof. split; reflexivity. Qed.
+
+(* new_key_needs_30d: the hypotheses are satisfiable by a non-trivial history and the monitor's verdict
+   is not vacuous: B is published next to A for 31 days (one refresh unrecorded, one cut by a crash),
+   becomes trusted, and the monitor says "promoted"; under the colliding tag function B, seen once,
+   is neither trusted nor promoted *)
+Definition good_history : list event :=
+  [ ERun 0 (FResp [kA] [sg tag_inj kA]) no_faults;
+    ERun 0 (fetch_with tag_inj kB) no_faults;
+    ERun (10 * day) (fetch_with tag_inj kB) (mk_faults false TROk false true);
+    ECrash (20 * day) (fetch_with tag_inj kB) no_faults 1 [kA] TROk;
+    ERun (31 * day) (fetch_with tag_inj kB) no_faults ].
+Example new_key_30d_example :
+  mono 0 good_history /\
+  let s0 := mk_sys [kA] [kA] empty_disk in
+  In kB (s_live (exec tag_inj s0 good_history)) /\
+  snd (monitor tag_inj kB s0 good_history (mk_mon None false false)) = mk_mon (Some 0%Z) true false.
+Proof.
+  split; [|split].
+  - vm_compute. repeat split; discriminate.
+  - vm_compute. auto.
+  - vm_compute. reflexivity.
+Qed.
+Example new_key_30d_collision_example :
+  let s0 := mk_sys [kA] [kA] empty_disk in
+  ~ In kB (s_live (exec tag_coll s0 coll_history)) /\
+  snd (monitor tag_coll kB s0 coll_history (mk_mon None false false)) = mk_mon None false false.
+Proof. vm_compute. split; [intros [H|[]]; discriminate|reflexivity]. Qed.
